@@ -91,7 +91,7 @@ class Engine:
         s.m = module
         s.models = dict(BUILTIN_MODELS)
         if models: s.models.update(models)
-        s.solver = z3.Solver(); s.sol_stack = []
+        s.solver = z3.Solver(); s.sol_stack = []; s.solver.set('timeout', 8000); s.portfolio_s = 150
         s.gaddr = {}        # global name -> address
         s.faddr = {}        # function name -> address ; reverse
         s.addr2f = {}
@@ -130,8 +130,47 @@ class Engine:
             st.mdl_alt = s.solver.model(); st.mdl_alt_n = len(st.pc)    # model of pc /\ cond: becomes the state's model if cond is appended next
         s.solver.pop()
         s.stats['solver_calls'] += 1; s.stats['solver_time'] += time.time() - t
-        if r == z3.unknown: raise Unsupported('solver unknown')
+        if r == z3.unknown:
+            r = s.portfolio(st, cond)
         return r == z3.sat
+    def portfolio(s, st, cond):
+        """z3 in-process gave up within its time slice (typically div/mul-by-constant arithmetic): decide the same query with
+        cvc5 --solve-bv-as-int=sum (integer encoding keeping the mod-2^k semantics) and the z3 CLI in parallel."""
+        import subprocess, tempfile, os
+        t0 = time.time()
+        tmp = z3.Solver()
+        for c in st.pc: tmp.add(c)
+        tmp.add(cond)
+        txt = '(set-logic QF_BV)\n' + tmp.to_smt2()
+        for op in ('bvudiv', 'bvurem', 'bvsdiv', 'bvsrem', 'bvsmod'): txt = txt.replace(op + '_i', op).replace(op + '0', op)   # z3-internal 'divisor known non-zero' operators
+        fd, path = tempfile.mkstemp(suffix='.smt2', prefix='vpq_'); os.write(fd, txt.encode()); os.close(fd)
+        procs = [('cvc5-int', subprocess.Popen(['cvc5', '--solve-bv-as-int=sum', '--tlimit=%d' % (s.portfolio_s * 1000), path], stdout=subprocess.PIPE, stderr=subprocess.PIPE)),
+                 ('z3-cli', subprocess.Popen([__import__('shutil').which('z3-new') or 'z3', '-T:%d' % s.portfolio_s, path], stdout=subprocess.PIPE, stderr=subprocess.PIPE))]
+        verdict = None; who = None
+        deadline = time.time() + s.portfolio_s + 5
+        try:
+            while procs and verdict is None and time.time() < deadline:
+                for nm, p in list(procs):
+                    if p.poll() is not None:
+                        out = p.stdout.read().decode(errors='replace'); procs.remove((nm, p))
+                        first = out.strip().split('\n')[0].strip() if out.strip() else ''
+                        if '(error' in out:
+                            s.stats.setdefault('portfolio_errors', []).append(nm + ': ' + out.strip()[:200]); continue
+                        if first == 'unsat': verdict = z3.unsat; who = nm
+                        elif first == 'sat': verdict = z3.sat; who = nm
+                time.sleep(0.05)
+        finally:
+            for nm, p in procs:
+                try: p.kill()
+                except Exception: pass
+            try: os.unlink(path)
+            except Exception: pass
+        s.stats['portfolio_calls'] = s.stats.get('portfolio_calls', 0) + 1
+        s.stats['portfolio_time'] = s.stats.get('portfolio_time', 0.0) + time.time() - t0
+        s.stats['solver_time'] += time.time() - t0
+        if verdict is None: raise Unsupported('solver portfolio (z3, cvc5 bv-as-int, z3 CLI) returned no verdict within %ds' % s.portfolio_s)
+        s.stats.setdefault('portfolio_by', {}); s.stats['portfolio_by'][who] = s.stats['portfolio_by'].get(who, 0) + 1
+        return verdict
     def sync_solver(s, st):
         """keep the incremental solver's assertion stack equal to st.pc (one push level per constraint); states explored
         depth-first share long prefixes, so most queries only push the new condition"""
@@ -293,7 +332,9 @@ class Engine:
     def to_bytes(s, v, n):
         if v is UNDEF: return [UNDEF] * n
         if is_sym(v):
-            return [z3.simplify(z3.Extract(8 * i + 7, 8 * i, v)) for i in range(n)]
+            # raw Extract terms (no simplification): from_bytes() recognises them and hands back the original word, so values that
+            # travel through memory keep their word-level structure instead of being chopped into byte-wise arithmetic
+            return [z3.Extract(8 * i + 7, 8 * i, v) for i in range(n)]
         return [(v >> (8 * i)) & 0xff for i in range(n)]
     def from_bytes(s, bs):
         if any(b is UNDEF for b in bs):
@@ -308,6 +349,15 @@ class Engine:
             v = 0
             for i, b in enumerate(bs): v |= b << (8 * i)
             return v
+        # all bytes are consecutive slices of ONE term: return that term (or one wider slice of it)
+        b0 = bs[0]
+        if is_sym(b0) and b0.decl().kind() == z3.Z3_OP_EXTRACT:
+            src = b0.arg(0); lo0 = b0.params()[1]; ok = True
+            for i, b in enumerate(bs):
+                if not (is_sym(b) and b.decl().kind() == z3.Z3_OP_EXTRACT and b.arg(0).eq(src) and b.params()[1] == lo0 + 8 * i and b.params()[0] == lo0 + 8 * i + 7): ok = False; break
+            if ok:
+                if lo0 == 0 and src.size() == 8 * len(bs): return src
+                return z3.Extract(lo0 + 8 * len(bs) - 1, lo0, src)
         parts = [b if is_sym(b) else z3.BitVecVal(b, 8) for b in bs]
         return z3.simplify(z3.Concat(*reversed(parts))) if len(parts) > 1 else parts[0]
     def load(s, st, addr, t):
